@@ -138,6 +138,8 @@ def query(sp, name, args):
     if name == "kappaX":
         g1 = container(parse_group_tok(args[0]), len(sp))
         g2 = container(parse_group_tok(args[1]), len(sp) + 1)
+        if "@backend" in FLAGS:
+            return num(sp.SeqObj.kappa_X(g1, g2))
         return num(sp.get_kappa_X(g1, g2))
     if name == "region":
         return ("int", int(sp.get_phasePlotRegion()))
@@ -214,7 +216,16 @@ def query(sp, name, args):
         if isinstance(size, int) and (size + len(sp)) % 5 == 0:
             size = str(size) if len(sp) % 2 else " %d " % size      # the size as a numeric string (the API applies int() to it)
         r = sp.get_reduced_alphabet_sequence(size, ua) if ua else sp.get_reduced_alphabet_sequence(size)
-        return ("red", r[0], "".join(r[1]))
+        res = ("red", r[0], "".join(r[1]))
+        # the returned alphabet is the caller's own list: what the caller does to it afterwards must not reach the library
+        try:
+            if isinstance(r[1], list) and r[1]:
+                r[1].pop()
+                r[1].append("X")
+                r[1].reverse()
+        except Exception:
+            pass
+        return res
     if name == "cplx":
         typ, size, ua, w, st, ws = args
         if typ.startswith("h:"):
@@ -230,6 +241,12 @@ def query(sp, name, args):
         n, d = (args[1].split("/") + ["1"])[:2]
         # a token without "/" is passed as a Python int, "n/1" as a float
         pH = int(n) if "/" not in args[1] else float(int(n)) / float(int(d))
+        if "@totnorm" in FLAGS and args[0] == "fcr":
+            # FCR(pH) through the backend's other parameter combination: total charge per TITRATABLE residue, rescaled to per residue
+            sq = sp.get_sequence()
+            ntit = sum(c in "KRHDECY" for c in sq)
+            tot = sp.SeqObj.charge_at_pH(pH, mode="TOTAL", normalize=True) if (len(sq) + int(n)) % 2 else sp.SeqObj.charge_at_pH(pH, "TOTAL", True)
+            return num(float(tot) * ntit / len(sq))
         f = {"ncpr": sp.get_NCPR, "fcr": sp.get_FCR, "mnc": sp.get_mean_net_charge, "fer": sp.get_fraction_expanding}[args[0]]
         return num(f(pH) if (len(sp) + int(n)) % 2 else f(pH=pH))
     if name == "pisound":
@@ -255,8 +272,14 @@ def query(sp, name, args):
     raise KeyError("unknown q op " + name)
 
 
+FLAGS = frozenset()      # the '@route' tokens of the line being evaluated
+
+
 def eval_line(line, state):
+    global FLAGS
     toks = [t for t in line.strip().split(" ") if t]
+    FLAGS = frozenset(t for t in toks if t.startswith("@"))
+    toks = [t for t in toks if not t.startswith("@")]
     if not toks:
         return ("none",)
     try:
